@@ -790,8 +790,17 @@ class Tables:
         for e in evs:
             if e["kind"] not in ("setitem", "append", "append_sub"):
                 raise Unsupported("container %s is modified by .%s(), which this analysis does not model" % (show(c), e["kind"]))
-            for lp in self.own_loops(c, e):
+            own = self.own_loops(c, e)
+            for lp in own:
                 sts.append(self.order(lp, seen + (c,)))
+            if own and e["kind"] in ("setitem", "append_sub"):
+                # keys appear in loop order; that is *ascending key order* only if the key is the loop's own key
+                lv = ("elem", own[-1])
+                inner = own[-1]
+                while inner[0] == "call" and inner[1] in ("enumerate",) and inner[2]:
+                    lv, inner = ("item", lv, 1), inner[2][0]
+                if e["key"] not in (lv, ("item", lv, 0)):
+                    sts.append(("desc", "keys %s are inserted in the order of a loop over something else" % show(e["key"], 2)))
         if len(evs) > 1 and any(self.own_loops(c, e) for e in evs):
             # several insertion sites: sequential concatenation, deterministic but not globally sorted
             sts.append(("desc", "several insertion sites"))
@@ -880,6 +889,15 @@ class Load:
         return "cluster file" if any(not pol for _, pol in arm["guards"]) else "no cluster file"
 
 
+def _where(L, name=None, ev=None):
+    """Best location for a message: the statement of an event, else the helper that hosts the idiom today."""
+    if ev is not None:
+        return ev["fn"].where(ev["node"])
+    if name and L.prog.has_fn("data.pyclone." + name):
+        return L.prog.fn("data.pyclone." + name).where()
+    return L.fi.where()
+
+
 def seq_source(T, s):
     """Peel order wrappers off a sequence term down to a column projection: (frame, column, wrappers)."""
     wr = []
@@ -922,6 +940,8 @@ def classify_filter(L, node):
     """('cn', op, const) | ('group', op, count_term, group_key, how) for a row-filter node of the chain."""
     T = L.T
     kind, base, info = T.kind(node)
+    if node[0] == "method" and node[2] == "drop_duplicates":
+        return ("dedup", kwget(node[4], "subset", node[3][0] if node[3] else None))
     if node[0] == "method" and node[2] == "query" and node[3] and const_str(node[3][0]) is not None:
         try:
             q = ast.parse(const_str(node[3][0]), mode="eval").body
@@ -980,23 +1000,31 @@ def rule_L1(ctx, L):
             filters.append((n, classify_filter(L, n)))
         elif k in ("merge", "group"):
             raise Unsupported("the mutation table passes through %s" % k)
-    where = fi.where()
+    where = _where(L, "load_pyclone_data")
+    w_cn, w_gr = _where(L, "_remove_cn_zero_mutations"), _where(L, "_remove_duplicated_and_partially_absent_mutations")
     construct = "phyclone.data.pyclone:load_pyclone_data"
     cn = [(n, c) for n, c in filters if c[0] == "cn"]
     gr = [(n, c) for n, c in filters if c[0] == "group"]
+    dd = [(n, c) for n, c in filters if c[0] == "dedup"]
+    if dd:
+        # exact or keyed de-duplication anywhere on the way to the records: a duplicated mutation is no longer "one row too many"
+        before = not gr or any(n is dd[0][0] or n == dd[0][0] for n in T.chain(T.kind(gr[0][0])[1]) if n[0] != "condnode")
+        if not before:
+            raise Unsupported("drop_duplicates after the group-size filter")
+        ctx.fail("L1", "no de-duplication before the group-size filter", where, "drop_duplicates(%s) collapses duplicated rows before the group-size filter, so a duplicated mutation is kept (with a row chosen by input order when payloads differ) instead of dropped" % (show(dd[0][1], 2) if dd[0][1] is not None else ""), construct=construct, stmt="drop_duplicates")
     if len(cn) > 1 or len(gr) > 1:
         raise Unsupported("more than one copy-number / group-size filter on the load path")
     # (1) copy-number predicate
     if not cn:
-        ctx.fail("L1", "copy-number filter", where, "no filter on major_cn lies between the input table and the per-mutation records: rows with major copy number zero are kept", construct=construct, stmt="major_cn filter")
+        ctx.fail("L1", "copy-number filter", w_cn, "no filter on major_cn lies between the input table and the per-mutation records: rows with major copy number zero are kept", construct=construct, stmt="major_cn filter")
     else:
         _, (_, op, c) = cn[0]
         ok = (op == "Gt" and c == 0 and c is not True) or (op == "GtE" and c == 1)
-        ctx.check(ok, "L1", "copy-number filter keeps rows iff major_cn > 0", where, "rows are kept iff major_cn %s %r, not iff major_cn > 0" % (SYM[op], c), construct=construct, stmt="major_cn filter", detail="major_cn %s %r" % (SYM[op], c))
+        ctx.check(ok, "L1", "copy-number filter keeps rows iff major_cn > 0", w_cn, "rows are kept iff major_cn %s %r, not iff major_cn > 0" % (SYM[op], c), construct=construct, stmt="major_cn filter", detail="major_cn %s %r" % (SYM[op], c))
     # (2) group-size predicate
     s_frame = s_col = None
     if not gr:
-        ctx.fail("L1", "group-size filter", where, "no group-size filter: mutations missing from a sample or duplicated are kept", construct=construct, stmt="group-size filter")
+        ctx.fail("L1", "group-size filter", w_gr, "no group-size filter: mutations missing from a sample or duplicated are kept", construct=construct, stmt="group-size filter")
     else:
         gnode, (_, op, cnt, kcol, how) = gr[0]
         why = None
@@ -1017,7 +1045,7 @@ def rule_L1(ctx, L):
                 why = "the count compared with the group size is the number of distinct %r values, not of samples" % s_col
             elif not (cnt[2][0] is L.samples or cnt[2][0] == L.samples):
                 why = "the sample list used by the group-size filter is not the one returned and iterated"
-        ctx.check(why is None, "L1", "group filter keeps a mutation iff row count over mutation_id == len(samples)", where, why or "", construct=construct, stmt="group-size filter")
+        ctx.check(why is None, "L1", "group filter keeps a mutation iff row count over mutation_id == len(samples)", w_gr, why or "", construct=construct, stmt="group-size filter")
     # (3) samples computed after the copy-number filter, before the group filter; (4) group filter runs on the copy-number-filtered frame
     r_frame, r_col, _ = seq_source(T, L.samples)
     ch = T.chain(r_frame)
@@ -1031,10 +1059,12 @@ def rule_L1(ctx, L):
     elif has_gr:
         why = "samples are computed after the group-size filter"
     ctx.check(why is None, "L1", "samples = distinct sample_id of the copy-number-filtered frame", where, why or "", construct=construct, stmt="samples computed after cn filter")
+    ok = False
     if cn and gr:
         gbase = T.kind(gr[0][0])[1]
         chg = T.chain(gbase)
         ok = any(n is cn[0][0] or n == cn[0][0] for n in chg if n[0] != "condnode")
+    if True:
         ctx.check(ok, "L1", "group filter runs on the copy-number-filtered frame", where, "the group-size filter runs before the copy-number filter: a mutation with a zero-copy-number row in one sample survives with a row missing", construct=construct, stmt="filter order")
     ctx.analysed(*L.flow.inlined)
 
@@ -1101,6 +1131,11 @@ class Scan:
             return
         if k == "call" and t[1] == "len" and len(t[2]) == 1 and T.is_frame(t[2][0]):
             return
+        if (k == "call" and t[1] == "sorted") or (k == "method" and t[2] == "unique" and T.is_frame(t[1])):
+            st = T.order(t)  # a sequence of column values: fine when its order is not the row order
+            if st[0] in ("rows", "hash"):
+                self.bad.append("%s is a sequence in %s order (%s)" % (show(t, 3), st[0], st[1]))
+            return
         if k == "method" and T.is_frame(t[1]):
             m = t[2]
             if T.is_frame(t):
@@ -1145,9 +1180,9 @@ class Scan:
                 self.scan(x)
 
 
-def _order_check(ctx, L, rule, label, term, stmt, allow=("sorted", "desc")):
+def _order_check(ctx, L, rule, label, term, stmt, allow=("sorted", "desc"), where=None):
     st = L.T.order(term) if term[0] != "new" else L.T.order_container(term)
-    ctx.check(st[0] in allow, rule, label, L.fi.where(), "order follows %s: %s" % ({"rows": "the row order of the input file", "hash": "hash order", "desc": "a deterministic but not ascending order"}.get(st[0], st[0]), st[1]), construct="phyclone.data.pyclone:load_data", stmt=stmt, detail=st[1])
+    ctx.check(st[0] in allow, rule, label, where or L.fi.where(), "order follows %s: %s" % ({"rows": "the row order of the input file", "hash": "hash order", "desc": "a deterministic but not ascending order"}.get(st[0], st[0]), st[1]), construct="phyclone.data.pyclone:load_data", stmt=stmt, detail=st[1])
     return st
 
 
@@ -1157,9 +1192,9 @@ def rule_L2(ctx, L):
     where = L.fi.where()
     C = "phyclone.data.pyclone:load_data"
     # (a) order of samples
-    _order_check(ctx, L, "L2", "sink (a): order of the returned sample list", L.samples, "sink a samples")
+    _order_check(ctx, L, "L2", "sink (a): order of the returned sample list", L.samples, "sink a samples", where=_where(L, "load_pyclone_data"))
     # (b) order in which mutations enter the mapping
-    _order_check(ctx, L, "L2", "sink (b): order in which mutations enter the mapping", L.mutdict, "sink b mutation order")
+    _order_check(ctx, L, "L2", "sink (b): order in which mutations enter the mapping", L.mutdict, "sink b mutation order", where=_where(L, ev=L.mut_ev))
     # (c) per-sample vector: built by one loop over exactly the returned sample list, every read keyed by that loop's sample
     why = None
     if not (L.mut_samples is L.samples or L.mut_samples == L.samples):
@@ -1173,6 +1208,7 @@ def rule_L2(ctx, L):
     if why is None and not (own[0] is L.samples or own[0] == L.samples):
         st = T.order(own[0])
         why = "the per-sample vector is filled by iterating %s, not the returned sample list (%s)" % (show(own[0], 3), st[1])
+    where = _where(L, ev=evs[0])
     ctx.check(why is None, "L2", "sink (c): per-sample vector is filled by one pass over the returned sample list", where, why or "", construct=C, stmt="sink c vector order")
     sc = Scan(L)
     sc.scan(evs[0]["value"])
@@ -1196,7 +1232,8 @@ def rule_L2(ctx, L):
     # (d) order of the data list, per arm; payload of each data point read by key
     for arm in L.arms:
         lab = L.arm_label(arm)
-        _order_check(ctx, L, "L2", "sink (d): order of the data list (%s)" % lab, arm["list"], "sink d " + lab)
+        where = _where(L, ev=arm["ev"])
+        _order_check(ctx, L, "L2", "sink (d): order of the data list (%s)" % lab, arm["list"], "sink d " + lab, where=where)
         sc = Scan(L)
         for v in arm["dp"].values():
             sc.scan(v)
@@ -1237,7 +1274,7 @@ def _set_col(n):
 def rule_L3(ctx, L):
     T = L.T
     ctx.rule("L3", "error_rate <- 1e-3 and tumour_content <- 1.0 only when the column is absent, on the frame the records are read from", 3)
-    where = L.fi.where()
+    where = _where(L, "_process_required_cols_on_df")
     C = "phyclone.data.pyclone:_process_required_cols_on_df"
     chain = T.chain(L.frame)
     for col, want in DEFAULTS:
@@ -1333,8 +1370,8 @@ def _reraises(handler):
     return all(oc == "raise" for _, oc in enumerate_paths(handler.body)) if not any(isinstance(n, (ast.Break, ast.Continue)) for n in ast.walk(handler)) else False
 
 
-def rule_L4(ctx, L):
-    prog = L.prog
+def rule_L4(ctx):
+    prog = ctx.prog
     ctx.rule("L4", "MajorCopyNumberError is raised iff major_cn < minor_cn, before the genotype loop, and no handler between get_major_cn_prior and the command swallows it", 6)
     g = prog.fn("data.pyclone.get_major_cn_prior")
     exc_ci = prog.cls("utils.exceptions.MajorCopyNumberError")
@@ -1434,16 +1471,26 @@ def _is_str_of(t, x):
     return False
 
 
+def _mut_loop(L, lp, lv):
+    """(key, record) terms if `lp` iterates the mutation mapping and `lv` is its loop variable."""
+    if lp[0] == "method" and lp[2] == "items" and not lp[3] and lp[1] == L.mutdict:
+        return ("item", lv, 0), ("item", lv, 1)
+    if lp == L.mutdict or (lp[0] == "method" and lp[2] == "keys" and lp[1] == L.mutdict):
+        return lv, ("sub", L.mutdict, lv)
+    return None
+
+
 def rule_L5(ctx, L):
     T = L.T
     ctx.rule("L5", "data points are numbered by enumerate over the sorted mapping / sorted cluster ids, named after their key; samples ascending; tab-then-comma separator fallback", 7)
     where = L.fi.where()
     C = "phyclone.data.pyclone:load_data"
-    _order_check(ctx, L, "L5", "samples are in ascending order", L.samples, "samples ascending", allow=("sorted",))
-    _order_check(ctx, L, "L5", "mutations enter the mapping in ascending identifier order", L.mutdict, "mutations ascending", allow=("sorted",))
+    _order_check(ctx, L, "L5", "samples are in ascending order", L.samples, "samples ascending", allow=("sorted",), where=_where(L, "load_pyclone_data"))
+    _order_check(ctx, L, "L5", "mutations enter the mapping in ascending identifier order", L.mutdict, "mutations ascending", allow=("sorted",), where=_where(L, ev=L.mut_ev))
     for arm in L.arms:
         lab = L.arm_label(arm)
         ev, dp = arm["ev"], arm["dp"]
+        where = _where(L, ev=ev)
         own = T.own_loops(arm["list"], ev)
         if len(own) != 1:
             raise Unsupported("data list (%s) is filled under %d loops" % (lab, len(own)))
@@ -1462,9 +1509,10 @@ def rule_L5(ctx, L):
             continue
         entry = ("item", ("elem", loop), 1)
         name = dp.get("name")
-        if inner[0] == "method" and inner[2] in ("items",) and inner[1] == L.mutdict:
+        ml = _mut_loop(L, inner, entry)
+        if ml is not None:
             # no cluster file: one data point per mutation, named by the mutation id, value from that mutation's record
-            key, rec = ("item", entry, 0), ("item", entry, 1)
+            key, rec = ml
             why = None
             if name is None or not _is_str_of(name, key):
                 why = "data point is named %s, not by the mutation it was built from" % show(name, 3)
@@ -1480,7 +1528,7 @@ def rule_L5(ctx, L):
                 src = src[1]
             why = None
             if st[0] != "sorted":
-                why = "clusters are numbered in %s order (%s), not ascending cluster id" % (st[0], st[1])
+                why = "clusters are numbered in %s order (%s), not ascending cluster id" % ({"desc": "a deterministic but not ascending", "rows": "input-row", "hash": "hash"}[st[0]], st[1])
             elif src[0] != "new":
                 raise Unsupported("clusters are enumerated from %s" % show(src, 3))
             elif name is None or not _is_str_of(name, entry):
@@ -1495,7 +1543,10 @@ def rule_L5(ctx, L):
             e = subs[0]
             lp = T.own_loops(src, e)[0]
             it = ("elem", lp)
-            ok = lp[0] == "method" and lp[2] == "items" and lp[1] == L.mutdict and e["key"][0] == "sub" and e["key"][2] == ("item", it, 0) and _contains(e["value"][0], ("item", it, 1))
+            ml = _mut_loop(L, lp, it)
+            if ml is None:
+                raise Unsupported("cluster members are filed by a loop over %s, not over the mutation mapping" % show(lp, 3))
+            ok = e["key"][0] == "sub" and e["key"][2] == ml[0] and _contains(e["value"][0], ml[1])
             ctx.check(ok, "L5", "each mutation's grid is filed under the cluster looked up by that mutation's id", where, "member %s filed under %s" % (show(e["value"][0], 2), show(e["key"], 3)), construct="phyclone.data.pyclone:_create_clustered_data_arr", stmt="cluster membership")
     # separator fallback: read_table(file) and, iff it yields one column, read_csv(file)
     root = T.chain(L.frame)[-1]
@@ -1537,7 +1588,7 @@ def rule_L5(ctx, L):
                 why = "the fallback does not read comma-separated input"
             elif fb[3][:1] != first[3][:1]:
                 why = "the fallback reads a different file"
-    ctx.check(why is None, "L5", "tab-separated read, comma-separated fallback iff one column", where, why or "", construct=F, stmt="separator fallback")
+    ctx.check(why is None, "L5", "tab-separated read, comma-separated fallback iff one column", _where(L, "_create_raw_data_df"), why or "", construct=F, stmt="separator fallback")
 
 
 def _contains(t, needle, _seen=None):
@@ -1556,10 +1607,117 @@ def _contains(t, needle, _seen=None):
 def run(ctx):
     ctx.assume("pandas semantics of read_table/read_csv, boolean masks, groupby/transform('size'), sort_values, set_index/.at, to_dict are the documented ones")
     ctx.assume("the optional loss-probability assignment (_assign_out_prob) is outside the claim; it is treated as an order-preserving column assignment")
-    L = Load(ctx)
+    rule_L4(ctx)
+    try:
+        L = Load(ctx)
+    except Unsupported as ex:
+        if ctx.violations:  # an established violation stands even if the rest of the path is not analysable
+            ctx.note("load path not analysable after the L4 violation: %s" % ex)
+            return
+        raise
     ctx.sample({"samples": show(L.samples, 6), "frame": show(L.frame, 5), "mutation key": show(L.mut_ev["key"], 3)})
-    rule_L1(ctx, L)
-    rule_L2(ctx, L)
-    rule_L3(ctx, L)
-    rule_L4(ctx, L)
-    rule_L5(ctx, L)
+    done = {"L4"}
+    for rid, rule in (("L1", rule_L1), ("L2", rule_L2), ("L3", rule_L3), ("L5", rule_L5)):
+        try:
+            rule(ctx, L)
+            done.add(rid)
+        except Unsupported as ex:
+            if not ctx.violations:
+                raise
+            # an established violation stands; the rules that could not be decided are dropped from this run
+            ctx.note("rule %s not analysable in the presence of the reported violation(s): %s" % (rid, ex))
+            for r in list(ctx.rule_min):
+                if r not in done:
+                    ctx.rule_min.pop(r)
+            return
+
+
+# Self-test catalogue: one textual edit each, applied to a scratch copy (see selftest.py).
+_P = "phyclone/data/pyclone.py"
+_CALL = """            cn, mu, log_pi = get_major_cn_prior(
+                group.at[sample, "major_cn"],
+                group.at[sample, "minor_cn"],
+                group.at[sample, "normal_cn"],
+                error_rate=group.at[sample, "error_rate"],
+            )
+"""
+_CALL_TRY = """            try:
+                cn, mu, log_pi = get_major_cn_prior(
+                    group.at[sample, "major_cn"],
+                    group.at[sample, "minor_cn"],
+                    group.at[sample, "normal_cn"],
+                    error_rate=group.at[sample, "error_rate"],
+                )
+            except MajorCopyNumberError:
+                cn, mu, log_pi = get_major_cn_prior(
+                    group.at[sample, "minor_cn"],
+                    group.at[sample, "major_cn"],
+                    group.at[sample, "normal_cn"],
+                    error_rate=group.at[sample, "error_rate"],
+                )
+"""
+_CALL_HELPER = """            cn, mu, log_pi = _prior_for(group, sample)
+"""
+_HELPER_DEF = """def _prior_for(group, sample):
+    return get_major_cn_prior(
+        group.at[sample, "major_cn"],
+        group.at[sample, "minor_cn"],
+        group.at[sample, "normal_cn"],
+        error_rate=group.at[sample, "error_rate"],
+    )
+
+
+def get_major_cn_prior(major_cn, minor_cn, normal_cn, error_rate=1e-3):"""
+SELFTEST = [
+    # ---- Appendix A
+    {"name": "L2-samples-not-sorted", "kind": "break", "rule": "L2", "file": _P, "old": 'samples = sorted(df["sample_id"].unique())', "new": 'samples = list(df["sample_id"].unique())'},
+    {"name": "L2-sort_values-removed", "kind": "break", "rule": "L2", "file": _P, "old": '    df = df.sort_values(by="mutation_id", ascending=True)\n', "new": "    df = df.copy()\n"},
+    {"name": "L1-cn-filter-ge-zero", "kind": "break", "rule": "L1", "file": _P, "old": 'df = df.loc[df["major_cn"] > 0]', "new": 'df = df.loc[df["major_cn"] >= 0]'},
+    {"name": "L1-group-filter-ge", "kind": "break", "rule": "L1", "file": _P, "old": "df = df.loc[group_transform == samples_len]", "new": "df = df.loc[group_transform >= samples_len]"},
+    {"name": "L3-error-rate-1e-2", "kind": "break", "rule": "L3", "file": _P, "old": 'df.loc[:, "error_rate"] = 1e-3', "new": 'df.loc[:, "error_rate"] = 1e-2'},
+    {"name": "L3-tumour-content-0.9", "kind": "break", "rule": "L3", "file": _P, "old": 'df.loc[:, "tumour_content"] = 1.0', "new": 'df.loc[:, "tumour_content"] = 0.9'},
+    {"name": "L3-default-unconditional", "kind": "break", "rule": "L3", "file": _P, "old": '    if "error_rate" not in df.columns:\n        df.loc[:, "error_rate"] = 1e-3\n', "new": '    df.loc[:, "error_rate"] = 1e-3\n'},
+    {"name": "L4-swallowed-at-call", "kind": "break", "rule": "L4", "file": _P, "old": _CALL, "new": _CALL_TRY},
+    {"name": "L5-idx-from-cluster-id", "kind": "break", "rule": "L5", "file": _P, "old": '            idx,\n            val,\n            name="{}".format(cluster_id),', "new": '            cluster_id,\n            val,\n            name="{}".format(cluster_id),'},
+    # ---- subtler ones
+    {"name": "L4-swallowed-in-load_data", "kind": "break", "rule": "L4", "file": _P, "old": "    pyclone_data, samples = load_pyclone_data(file_name)\n", "new": "    try:\n        pyclone_data, samples = load_pyclone_data(file_name)\n    except Exception:\n        pyclone_data, samples = OrderedDict(), []\n"},
+    {"name": "L4-guard-le", "kind": "break", "rule": "L4", "file": _P, "old": "    if major_cn < minor_cn:", "new": "    if major_cn <= minor_cn:"},
+    {"name": "L4-guard-wrong-operand", "kind": "break", "rule": "L4", "file": _P, "old": "    if major_cn < minor_cn:", "new": "    if major_cn < normal_cn:"},
+    {"name": "L4-raise-removed", "kind": "break", "rule": "L4", "file": _P, "old": "        raise MajorCopyNumberError(major_cn, minor_cn)", "new": '        print("warning: major copy number below minor")'},
+    {"name": "L1-samples-before-cn-filter", "kind": "break", "rule": "L1", "file": _P, "old": '    df = _remove_cn_zero_mutations(df)\n\n    samples = sorted(df["sample_id"].unique())\n', "new": '    samples = sorted(df["sample_id"].unique())\n\n    df = _remove_cn_zero_mutations(df)\n'},
+    {"name": "L1-samples-after-group-filter", "kind": "break", "rule": "L1", "file": _P, "old": "    df = _remove_duplicated_and_partially_absent_mutations(df, samples)\n", "new": '    df = _remove_duplicated_and_partially_absent_mutations(df, samples)\n\n    samples = sorted(df["sample_id"].unique())\n'},
+    {"name": "L1-count-off-by-one", "kind": "break", "rule": "L1", "file": _P, "old": "samples_len = len(samples)", "new": "samples_len = len(samples) - 1"},
+    {"name": "L1-group-over-sample_id", "kind": "break", "rule": "L1", "file": _P, "old": 'df.groupby(df["mutation_id"])["sample_id"].transform("size")', "new": 'df.groupby(df["sample_id"])["sample_id"].transform("size")'},
+    {"name": "L1-cn-filter-dropped", "kind": "break", "rule": "L1", "file": _P, "old": '    df = df.loc[df["major_cn"] > 0]\n    return df', "new": "    return df"},
+    {"name": "L1-dedup-before-group-filter", "kind": "break", "rule": "L1", "file": _P, "old": "    df = _remove_cn_zero_mutations(df)\n", "new": "    df = _remove_cn_zero_mutations(df).drop_duplicates()\n"},
+    {"name": "L1-cn-filter-not-equal", "kind": "break", "rule": "L1", "file": _P, "old": 'df = df.loc[df["major_cn"] > 0]', "new": 'df = df.loc[df["major_cn"] != 0]'},
+    {"name": "L2-sort-on-wrong-key", "kind": "break", "rule": "L2", "file": _P, "old": 'df = df.sort_values(by="mutation_id", ascending=True)', "new": 'df = df.sort_values(by="sample_id", ascending=True)'},
+    {"name": "L2-positional-read", "kind": "break", "rule": "L2", "file": _P, "old": 'a = group.at[sample, "ref_counts"]', "new": 'a = group["ref_counts"].iloc[0]'},
+    {"name": "L2-vector-in-row-order", "kind": "break", "rule": "L2", "file": _P, "old": "        for sample in samples:\n\n            a = group.at", "new": "        for sample in group.index:\n\n            a = group.at"},
+    {"name": "L2-read-at-other-sample", "kind": "break", "rule": "L2", "file": _P, "old": 'b = group.at[sample, "alt_counts"]', "new": 'b = group.at[samples[0], "alt_counts"]'},
+    {"name": "L2-samples-from-set", "kind": "break", "rule": "L2", "file": _P, "old": 'samples = sorted(df["sample_id"].unique())', "new": 'samples = list(set(df["sample_id"]))'},
+    {"name": "L3-presence-test-inverted", "kind": "break", "rule": "L3", "file": _P, "old": 'if "tumour_content" not in df.columns:', "new": 'if "tumour_content" in df.columns:'},
+    {"name": "L3-guarded-by-other-column", "kind": "break", "rule": "L3", "file": _P, "old": 'if "error_rate" not in df.columns:', "new": 'if "tumour_content" not in df.columns:'},
+    {"name": "L3-error-rate-column-ignored", "kind": "break", "rule": "L3", "file": _P, "old": '                error_rate=group.at[sample, "error_rate"],\n', "new": ""},
+    {"name": "L5-clusters-unsorted", "kind": "break", "rule": "L5", "file": _P, "old": "enumerate(sorted(raw_data.keys()))", "new": "enumerate(raw_data.keys())"},
+    {"name": "L5-enumerate-from-one", "kind": "break", "rule": "L5", "file": _P, "old": "enumerate(pyclone_data.items())", "new": "enumerate(pyclone_data.items(), 1)"},
+    {"name": "L5-samples-descending", "kind": "break", "rule": "L5", "file": _P, "old": 'samples = sorted(df["sample_id"].unique())', "new": 'samples = sorted(df["sample_id"].unique(), reverse=True)'},
+    {"name": "L5-mutations-descending", "kind": "break", "rule": "L5", "file": _P, "old": 'df.sort_values(by="mutation_id", ascending=True)', "new": 'df.sort_values(by="mutation_id", ascending=False)'},
+    {"name": "L5-fallback-on-two-columns", "kind": "break", "rule": "L5", "file": _P, "old": "if len(df.columns) == 1:", "new": "if len(df.columns) == 2:"},
+    {"name": "L5-fallback-removed", "kind": "break", "rule": "L5", "file": _P, "old": "    if len(df.columns) == 1:\n        df = pd.read_csv(file_name)\n", "new": ""},
+    {"name": "L5-cluster-value-from-other-key", "kind": "break", "rule": "L5", "file": _P, "old": "val = np.sum(np.array(raw_data[cluster_id]), axis=0)", "new": "val = np.sum(np.array(raw_data[idx]), axis=0)"},
+    # ---- benign
+    {"name": "benign-bracket-mask", "kind": "benign", "file": _P, "old": 'df = df.loc[df["major_cn"] > 0]', "new": 'df = df[df["major_cn"] > 0]'},
+    {"name": "benign-commuted-compare", "kind": "benign", "file": _P, "old": 'df = df.loc[df["major_cn"] > 0]', "new": 'df = df.loc[0 < df["major_cn"]]'},
+    {"name": "benign-query", "kind": "benign", "file": _P, "old": 'df = df.loc[df["major_cn"] > 0]', "new": 'df = df.query("major_cn > 0")'},
+    {"name": "benign-split-mask", "kind": "benign", "file": _P, "old": "    df = df.loc[group_transform == samples_len]\n", "new": "    keep = samples_len == group_transform\n    kept = df.loc[keep]\n    df = kept\n"},
+    {"name": "benign-split-samples", "kind": "benign", "file": _P, "old": 'samples = sorted(df["sample_id"].unique())', "new": 'sample_ids = df["sample_id"].unique()\n    samples = sorted(sample_ids)'},
+    {"name": "benign-groupby-default-sort", "kind": "benign", "file": _P, "old": 'grouped = df.groupby("mutation_id", sort=False)', "new": 'grouped = df.groupby("mutation_id")'},
+    {"name": "benign-str-name", "kind": "benign", "file": _P, "old": 'name="{}".format(cluster_id),', "new": "name=str(cluster_id),"},
+    {"name": "benign-shape-probe", "kind": "benign", "file": _P, "old": "if len(df.columns) == 1:", "new": "if df.shape[1] == 1:"},
+    {"name": "benign-guard-commuted", "kind": "benign", "file": _P, "old": "    if major_cn < minor_cn:", "new": "    if minor_cn > major_cn:"},
+    {"name": "benign-extract-helper", "kind": "benign", "file": _P, "edits": [{"file": _P, "old": _CALL, "new": _CALL_HELPER}, {"file": _P, "old": "def get_major_cn_prior(major_cn, minor_cn, normal_cn, error_rate=1e-3):", "new": _HELPER_DEF}]},
+    {"name": "benign-added-print", "kind": "benign", "file": _P, "old": "    total_cn = major_cn + minor_cn\n", "new": '    total_cn = major_cn + minor_cn\n    print("total copy number", total_cn)\n'},
+    {"name": "benign-reraise-handler", "kind": "benign", "file": _P, "old": "    pyclone_data, samples = load_pyclone_data(file_name)\n", "new": "    try:\n        pyclone_data, samples = load_pyclone_data(file_name)\n    except MajorCopyNumberError as err:\n        print(err)\n        raise\n"},
+    {"name": "benign-setcol-default", "kind": "benign", "file": _P, "old": 'df.loc[:, "error_rate"] = 1e-3', "new": 'df["error_rate"] = 0.001'},
+]
